@@ -514,9 +514,92 @@ theorem emits_seqAll5 {f1 f2 f3 f4 f5 : Enc → ERes Unit} {L1 L2 L3 L4 L5 : Lay
     Emits (seqAll [f1, f2, f3, f4, f5]) (laySeq L1 (laySeq L2 (laySeq L3 (laySeq L4 (laySeq L5 layEmpty))))) :=
   emits_seq i1 h1 (emits_seqAll4 i2 i3 i4 i5 h2 h3 h4 h5)
 
+theorem segAt_concat {b a c : Bytes} {p : Nat} (h1 : SegAt b p a) (h2 : SegAt b (p + a.length) c) :
+    SegAt b p (a ++ c) := by
+  refine ⟨by have := h2.1; simp only [List.length_append]; omega, ?_⟩
+  apply List.ext_getElem?
+  intro i
+  simp only [List.getElem?_take, List.getElem?_drop, List.length_append]
+  by_cases hi : i < a.length + c.length
+  · simp only [hi, ↓reduceIte]
+    by_cases hia : i < a.length
+    · rw [List.getElem?_append_left hia, h1.getElem? hia]
+    · rw [List.getElem?_append_right (by omega)]
+      have := h2.getElem? (i := i - a.length) (by omega)
+      rw [← this]; congr 1; omega
+  · simp only [hi, ↓reduceIte]
+    rw [List.getElem?_eq_none (by simp only [List.length_append]; omega)]
+
+theorem Emits.weaken {f : Enc → ERes Unit} {L L' : Lay} (h : Emits f L)
+    (himp : ∀ H b p q, L H b p q → L' H b p q) : Emits f L' := by
+  intro H e e' happ hinv hH hnl hf
+  have p := h H e e' happ hinv hH hnl hf
+  exact ⟨p.inv, p.app, p.le, p.pre, himp _ _ _ _ p.lay, p.canon, p.ne, p.max⟩
+
+/-- two emitters of plain octets in sequence emit the concatenation -/
+theorem emits_seg_seq {f g : Enc → ERes Unit} {a c : Bytes} (hf : Emits f (laySeg a)) (hg : Emits g (laySeg c)) :
+    Emits (Enc.seq f g) (laySeg (a ++ c)) := by
+  refine (emits_seq (isLayout_seg a) hf hg).weaken ?_
+  intro H b p q h
+  obtain ⟨m, ⟨s1, rfl⟩, s2, rfl⟩ := h
+  exact ⟨segAt_concat s1 s2, by simp only [List.length_append]; omega⟩
+
+theorem emits_nothing_seg : Emits emitNothing (laySeg []) := by
+  refine emits_nothing.weaken ?_
+  intro H b p q h
+  obtain ⟨rfl, h2⟩ := h
+  exact ⟨⟨by simpa using h2, by simp⟩, by simp⟩
+
+/-- `emit_character_data` of a string that fits: the length octet and the string -/
+theorem emits_emitCharacterData (s : Bytes) : Emits (fun e => e.emitCharacterData s) (laySeg (s.length :: s)) := by
+  intro H e e' happ hinv hH hnl h
+  simp only [Enc.emitCharacterData] at h
+  by_cases hl : s.length > 255
+  · simp [hl] at h
+  · simp only [hl, ↓reduceIte] at h
+    have hm : s.length % 256 = s.length := by omega
+    have := emits_seg_seq (emits_emitU8 s.length) (emits_emitSlice s) H e e' happ hinv hH hnl h
+    rw [hm] at this
+    exact this
+
+/-- the character-strings of a TXT record one after the other -/
+theorem emits_txt : ∀ (ss : List Bytes), Emits (seqAll (ss.map fun s => fun e => e.emitCharacterData s)) (laySeg (flat ss))
+  | [] => by simpa [seqAll, flat] using emits_nothing_seg
+  | s :: ss => by
+    simp only [List.map_cons, seqAll, flat_cons]
+    have := emits_seg_seq (emits_emitCharacterData s) (emits_txt ss)
+    simpa using this
+
+/-- `TXT::read_data` inverts it -/
+theorem parseTxt_flat : ∀ (ss : List Bytes), (∀ s ∈ ss, s.length ≤ 255) → (parseTxt (flat ss)).1 = .ok ss
+  | [], _ => by simp [flat, parseTxt]
+  | s :: ss, h => by
+    have ih := parseTxt_flat ss (fun x hx => h x (by simp [hx]))
+    rw [flat_cons, parseTxt]
+    have hle : s.length ≤ (s ++ flat ss).length := by simp
+    simp only [hle, ↓reduceDIte, List.drop_left, List.take_left]
+    generalize hr : parseTxt (flat ss) = r at ih
+    obtain ⟨o, k⟩ := r
+    simp only at ih
+    subst ih
+    rfl
+
+theorem i32_roundtrip (i : Int) (h : -2147483648 ≤ i ∧ i < 2147483648) : Rd.toI32 (i32ToU32 i) = i := by
+  unfold Rd.toI32 i32ToU32
+  split <;> omega
+
+theorem emits_seqAll7 {f1 f2 f3 f4 f5 f6 f7 : Enc → ERes Unit} {L1 L2 L3 L4 L5 L6 L7 : Lay} (i1 : IsLayout L1)
+    (i2 : IsLayout L2) (i3 : IsLayout L3) (i4 : IsLayout L4) (i5 : IsLayout L5) (i6 : IsLayout L6)
+    (i7 : IsLayout L7) (h1 : Emits f1 L1) (h2 : Emits f2 L2) (h3 : Emits f3 L3) (h4 : Emits f4 L4)
+    (h5 : Emits f5 L5) (h6 : Emits f6 L6) (h7 : Emits f7 L7) :
+    Emits (seqAll [f1, f2, f3, f4, f5, f6, f7])
+      (laySeq L1 (laySeq L2 (laySeq L3 (laySeq L4 (laySeq L5 (laySeq L6 (laySeq L7 layEmpty))))))) :=
+  emits_seq i1 h1 (emits_seq i2 h2 (emits_seqAll5 i3 i4 i5 i6 i7 h3 h4 h5 h6 h7))
+
 /-- the RDATA variants covered by the round-trip proof so far -/
 def _root_.HickoryVerif.Wire.RData.proved : RData → Bool
-  | .a _ | .name _ | .mx _ _ | .srv _ _ _ _ | .null _ | .unknown _ _ => true
+  | .a _ | .name _ | .mx _ _ | .soa _ _ _ _ _ _ _ | .txt _ | .srv _ _ _ _ | .hinfo _ _ | .null _
+  | .unknown _ _ => true
   | _ => false
 
 /-- the layout `RData::emit` leaves for the covered variants -/
@@ -527,6 +610,12 @@ def layRData : RData → Lay
   | .srv p w port n =>
     laySeq (laySeg (u16b p)) (laySeq (laySeg (u16b w)) (laySeq (laySeg (u16b port))
       (laySeq (layName n.labels) layEmpty)))
+  | .soa m r serial refresh retry expire minimum =>
+    laySeq (layName m.labels) (laySeq (layName r.labels) (laySeq (laySeg (u32b serial))
+      (laySeq (laySeg (u32b (i32ToU32 refresh))) (laySeq (laySeg (u32b (i32ToU32 retry)))
+        (laySeq (laySeg (u32b (i32ToU32 expire))) (laySeq (laySeg (u32b minimum)) layEmpty))))))
+  | .txt ss => laySeg (flat ss)
+  | .hinfo c o => laySeg ((c.length :: c) ++ (o.length :: o))
   | .null d => laySeg d
   | .unknown _ d => laySeg d
   | _ => fun _ _ _ _ => False
@@ -536,18 +625,26 @@ def _root_.HickoryVerif.Wire.RData.namesWF : RData → Prop
   | .name n => n.WF
   | .mx _ n => n.WF
   | .srv _ _ _ n => n.WF
+  | .soa m r _ _ _ _ _ => m.WF ∧ r.WF
   | _ => True
 
 theorem isLayout_rdata (d : RData) (hp : d.proved = true) : IsLayout (layRData d) := by
   cases d <;> first | (simp [RData.proved] at hp; done) | skip
   all_goals unfold layRData
-  · exact isLayout_seg _
-  · exact isLayout_name _
-  · exact isLayout_seq (isLayout_seg _) (isLayout_seq (isLayout_name _) isLayout_empty)
-  · exact isLayout_seq (isLayout_seg _) (isLayout_seq (isLayout_seg _) (isLayout_seq (isLayout_seg _)
+  case a => exact isLayout_seg _
+  case name => exact isLayout_name _
+  case mx => exact isLayout_seq (isLayout_seg _) (isLayout_seq (isLayout_name _) isLayout_empty)
+  case soa =>
+    exact isLayout_seq (isLayout_name _) (isLayout_seq (isLayout_name _) (isLayout_seq (isLayout_seg _)
+      (isLayout_seq (isLayout_seg _) (isLayout_seq (isLayout_seg _) (isLayout_seq (isLayout_seg _)
+        (isLayout_seq (isLayout_seg _) isLayout_empty))))))
+  case txt => exact isLayout_seg _
+  case srv =>
+    exact isLayout_seq (isLayout_seg _) (isLayout_seq (isLayout_seg _) (isLayout_seq (isLayout_seg _)
       (isLayout_seq (isLayout_name _) isLayout_empty)))
-  · exact isLayout_seg _
-  · exact isLayout_seg _
+  case hinfo => exact isLayout_seg _
+  case null => exact isLayout_seg _
+  case unknown => exact isLayout_seg _
 
 theorem emits_emitRData (t : Nat) (d : RData) (hp : d.proved = true) (hwf : d.namesWF) :
     Emits (emitRData t d) (layRData d) := by
@@ -561,6 +658,15 @@ theorem emits_emitRData (t : Nat) (d : RData) (hp : d.proved = true) (hwf : d.na
   case srv p w port n =>
     exact emits_withRdataBehavior (emits_seqAll4 (isLayout_seg _) (isLayout_seg _) (isLayout_seg _)
       (isLayout_name _) (emits_emitU16 p) (emits_emitU16 w) (emits_emitU16 port) (emits_emitName n hwf)) _
+  case soa m r serial refresh retry expire minimum =>
+    exact emits_withRdataBehavior (emits_seqAll7 (isLayout_name _) (isLayout_name _) (isLayout_seg _)
+      (isLayout_seg _) (isLayout_seg _) (isLayout_seg _) (isLayout_seg _) (emits_emitName m hwf.1)
+      (emits_emitName r hwf.2) (emits_emitU32 _) (emits_emitU32 _) (emits_emitU32 _) (emits_emitU32 _)
+      (emits_emitU32 _)) _
+  case txt ss => exact emits_txt ss
+  case hinfo c o =>
+    have := emits_seg_seq (emits_emitCharacterData c) (emits_seg_seq (emits_emitCharacterData o) emits_nothing_seg)
+    simpa [seqAll] using this
   case null d => exact emits_emitSlice d
   case unknown c d => exact emits_emitSlice d
 
@@ -700,6 +806,12 @@ def _root_.HickoryVerif.Wire.RData.typeOK (t : Nat) : RData → Prop
   | .name _ => t = 2 ∨ t = 5 ∨ t = 12 ∨ t = 65305
   | .mx p _ => t = 15 ∧ p < 65536
   | .srv p w port _ => t = 33 ∧ p < 65536 ∧ w < 65536 ∧ port < 65536
+  | .soa _ _ serial refresh retry expire minimum =>
+    t = 6 ∧ serial < 4294967296 ∧ minimum < 4294967296 ∧
+      (-2147483648 ≤ refresh ∧ refresh < 2147483648) ∧ (-2147483648 ≤ retry ∧ retry < 2147483648) ∧
+      (-2147483648 ≤ expire ∧ expire < 2147483648)
+  | .txt ss => t = 16 ∧ ∀ s ∈ ss, s.length ≤ 255
+  | .hinfo c o => t = 13 ∧ c.length ≤ 255 ∧ o.length ≤ 255
   | .null _ => t = 10
   | .unknown c _ => c = t ∧ UnknownType t
   | _ => False
@@ -709,12 +821,39 @@ def _root_.HickoryVerif.Wire.RData.fq : RData → RData
   | .name n => .name { n with fqdn := true }
   | .mx p n => .mx p { n with fqdn := true }
   | .srv p w port n => .srv p w port { n with fqdn := true }
+  | .soa m r a b c d e => .soa { m with fqdn := true } { r with fqdn := true } a b c d e
   | d => d
 
 theorem drop_of_segAt_end {buf d : Bytes} {p : Nat} (h : SegAt buf p d) (he : p + d.length = buf.length) :
     buf.drop p = d := by
   have := h.2
   rwa [List.take_of_length_le (by simp only [List.length_drop]; omega)] at this
+
+theorem Reads.toEnd {α} {p : Bytes → Outcome α × Nat} {buf : Bytes} {pos : Nat} {a : α}
+    (h : (p (buf.drop pos)).1 = .ok a) : Reads (toEnd p) buf pos a buf.length := by
+  intro t
+  refine ⟨t + (p (buf.drop pos)).2, ?_⟩
+  show Rd.bind Rd.readVecToEnd (fun d => Rd.bind (Rd.tick (p d).2) fun _ => Rd.lift (p d).1) buf _ = _
+  simp only [Rd.bind, Rd.readVecToEnd, Rd.tick, Rd.lift, h]
+
+theorem reads_i32_of_seg {H : Nat × Nat → Prop} {b : Bytes} {p q : Nat} {i : Int}
+    (h : laySeg (u32b (i32ToU32 i)) H b p q) (hi : -2147483648 ≤ i ∧ i < 2147483648) :
+    Reads Rd.readI32 b p i q := by
+  have hv : i32ToU32 i < 4294967296 := by unfold i32ToU32; omega
+  have := reads_u32_of_seg h hv
+  unfold Rd.readI32
+  refine Reads.bind this ?_
+  exact Reads.pure' _ _ (i32_roundtrip i hi)
+
+theorem reads_charData {buf s : Bytes} {p : Nat} (h : SegAt buf p (s.length :: s)) :
+    Reads Rd.readCharacterData buf p s (p + 1 + s.length) := by
+  have g0 := segAt_of_getElem (i := 0) h rfl
+  have hs : SegAt buf (p + 1) s := by
+    have := SegAt.append_right (a := [s.length]) (b := s) (by simpa using h)
+    simpa using this
+  unfold Rd.readCharacterData
+  refine Reads.bind (show Reads Rd.pop buf p s.length (p + 1) from by simpa using Reads.pop g0) ?_
+  exact Reads.readSlice hs
 
 /-- **the RDATA decoders invert the RDATA emitters** (covered variants) -/
 theorem reads_rdataBody {H : Nat × Nat → Prop} {opq : Nat → Rd Bytes} {t : Nat} {buf : Bytes} {p : Nat}
@@ -762,6 +901,40 @@ theorem reads_rdataBody {H : Nat × Nat → Prop} {opq : Nat → Rd Bytes} {t : 
     refine Reads.bind (reads_u16_of_seg l3 hport) ?_
     refine Reads.bind (reads_name_of_lay l4 hwf) ?_
     exact Reads.pure _ _ _
+  case soa m r serial refresh retry expire minimum =>
+    obtain ⟨rfl, hser, hmin, hrf, hrt, hex⟩ := hty
+    obtain ⟨m1, l1, m2, l2, m3, l3, m4, l4, m5, l5, m6, l6, m7, l7, l8⟩ := hl
+    obtain ⟨rfl, _⟩ := l8
+    simp only [readRDataBody, Nat.reduceEqDiff, ↓reduceIte, or_self]
+    refine Reads.bind (reads_name_of_lay l1 hwf.1) ?_
+    refine Reads.bind (reads_name_of_lay l2 hwf.2) ?_
+    refine Reads.bind (reads_u32_of_seg l3 hser) ?_
+    refine Reads.bind (reads_i32_of_seg l4 hrf) ?_
+    refine Reads.bind (reads_i32_of_seg l5 hrt) ?_
+    refine Reads.bind (reads_i32_of_seg l6 hex) ?_
+    refine Reads.bind (reads_u32_of_seg l7 hmin) ?_
+    exact Reads.pure _ _ _
+  case txt ss =>
+    obtain ⟨rfl, hss⟩ := hty
+    obtain ⟨hseg, hq⟩ := hl
+    simp only [readRDataBody, Nat.reduceEqDiff, ↓reduceIte, or_self]
+    refine Reads.bind (Reads.toEnd (a := ss) ?_) ?_
+    · rw [drop_of_segAt_end hseg hq.symm]; exact parseTxt_flat ss hss
+    · exact Reads.pure _ _ _
+  case hinfo c o =>
+    obtain ⟨rfl, hc, ho⟩ := hty
+    obtain ⟨hseg, hq⟩ := hl
+    have s1 : SegAt buf p (c.length :: c) := hseg.append_left
+    have s2 : SegAt buf (p + (c.length :: c).length) (o.length :: o) := hseg.append_right
+    simp only [readRDataBody, Nat.reduceEqDiff, ↓reduceIte, or_self]
+    refine Reads.bind (reads_charData s1) ?_
+    have : p + (c.length :: c).length = p + 1 + c.length := by simp; omega
+    rw [this] at s2
+    refine Reads.bind (reads_charData s2) ?_
+    have hend : p + 1 + c.length + 1 + o.length = buf.length := by
+      simp only [List.length_append, List.length_cons] at hq; omega
+    rw [hend]
+    exact Reads.pure _ _ _
   case null d =>
     obtain rfl := hty
     obtain ⟨hseg, hq⟩ := hl
@@ -786,6 +959,7 @@ theorem reads_rdataBody {H : Nat × Nat → Prop} {opq : Nat → Rd Bytes} {t : 
 
 /-- RDATA that encodes to at least one octet (RDLENGTH 0 is read as `Update0`) -/
 def _root_.HickoryVerif.Wire.RData.nonEmpty : RData → Prop
+  | .txt ss => ss ≠ []
   | .null d => d ≠ []
   | .unknown _ d => d ≠ []
   | _ => True
@@ -810,6 +984,27 @@ theorem layRData_pos {H : Nat × Nat → Prop} {b : Bytes} {p q : Nat} (d : RDat
     have := (isLayout_name _).bounds l4
     obtain ⟨rfl, _⟩ := l5
     simp [u16b] at *; omega
+  case soa m r serial refresh retry expire minimum =>
+    obtain ⟨m1, l1, rest⟩ := hl
+    obtain ⟨F, h1, _⟩ := l1
+    have h2 := h1.pos_lt_end
+    obtain ⟨m2, l2, m3, l3, m4, l4, m5, l5, m6, l6, m7, l7, l8⟩ := rest
+    have b2 := (isLayout_name _).bounds l2
+    have b3 := (isLayout_seg _).bounds l3
+    have b4 := (isLayout_seg _).bounds l4
+    have b5 := (isLayout_seg _).bounds l5
+    have b6 := (isLayout_seg _).bounds l6
+    have b7 := (isLayout_seg _).bounds l7
+    obtain ⟨rfl, _⟩ := l8
+    omega
+  case txt ss =>
+    obtain ⟨_, rfl⟩ := hl
+    cases ss with
+    | nil => exact absurd rfl hne
+    | cons x xs => simp [flat_cons]
+  case hinfo c o =>
+    obtain ⟨_, rfl⟩ := hl
+    simp
   case null dd =>
     obtain ⟨_, rfl⟩ := hl
     have : dd.length ≠ 0 := fun h => hne (List.eq_nil_of_length_eq_zero h)
